@@ -474,7 +474,7 @@ def judge(ref, got, tname):
     return "differ", f"returned although the int64 run raises {ref[1]}: {ref[2][:100]}"
 
 
-def run_worker(tname, tier, seed, limits=None, subset=False, families=None, out=sys.stdout):
+def run_worker(tname, tier, seed, limits=None, subset=False, families=None, out=sys.stdout, only_case=None):
     rng = np.random.default_rng([seed, 15])
     t = np.dtype(tname)
     thorough = tier == "thorough"
@@ -483,13 +483,15 @@ def run_worker(tname, tier, seed, limits=None, subset=False, families=None, out=
 
     def one(L, sname, shape, coords, data, only=None):
         nonlocal count
+        if only_case and sname != only_case[0]:
+            return
         o_ref = Operands(shape, coords, data, np.int64, L)
         o_t = Operands(shape, coords, data, t, L)
         t_ref = op_table(o_ref, subset)
         t_got = op_table(o_t, subset)
         assert [a[:2] for a in t_ref] == [a[:2] for a in t_got]
         for (fam, name, f_ref), (_, _, f_got) in zip(t_ref, t_got):
-            if (families and fam not in families) or (only and fam not in only):
+            if (families and fam not in families) or (only and fam not in only) or (only_case and (sname, name) != only_case):
                 continue
             case = {"op": name, "scenario": sname, "shape": list(shape), "nnz": int(coords.shape[1]), "idx_dtype": tname, "limit": L}
             # announce the case first: a wrapped index inside a compiled kernel can kill the interpreter
